@@ -105,7 +105,7 @@ func runHybridHistory(r *rand.Rand, o hybridOpts, t *Trace) *Case {
 	}
 	var docs []docRec
 	gone := []uint32{}
-	nextID := uint32(1)
+	nextID := uint32(1000001) // explicit ids stay clear of the process-wide counter behind automatically generated ids
 	train := func() {
 		vs := make([][]float32, ntrain)
 		for i := range vs {
